@@ -16,6 +16,8 @@ inductive Kind where
   | term (c : Nat)
   /-- `StreamErrorIncoming::Unknown` -/
   | unknown
+  /-- not an error: the call answers `Pending` once (`P`, `poll_finish` only) -/
+  | pend
 deriving Repr, DecidableEq
 
 structure Fault where
@@ -54,6 +56,7 @@ def isAccept : Site → Bool
 def natOf (cs : List Char) : Option Nat := (String.ofList cs).toNat?
 
 def kindOf (accept : Bool) : List Char → Option Kind
+  | ['P'] => some .pend
   | ['T'] => some (.conn .timeout)
   | ['I'] => some (.conn (.internal 0))
   | ['U'] => some (.conn (.undefined 0))
@@ -81,8 +84,9 @@ def parse (s : String) : Option Fault :=
         | none => none
         | some tg =>
           if (onStream site && tg.isNone) || (isAccept site && tg.isSome) then none
-          else (kindOf (isAccept site) err.toList).map fun kd =>
-            { site := site, target := tg, skip := k, kind := kd, label := s }
+          else (kindOf (isAccept site) err.toList).bind fun kd =>
+            if kd == .pend && site != .pf then none
+            else some { site := site, target := tg, skip := k, kind := kd, label := s }
     | _, _ => none
   | _ => none
 
